@@ -1,7 +1,160 @@
 import Driver.Common
+import Log4rsModel.Console.Spec
+/-
+C18 driver. Three kinds of cases (fields after the property id):
+  style    <text> <background> <intense>                 `-` | 0..7 ; `-` | 0 | 1
+           observation: hex bytes written by `AnsiWriter::set_style`, or PANIC
+  hl       <ansi|simple> <level 1..5> <tokens>           tokens: `,`-joined  H (open group) E (close)
+           T<hex> (literal text) L (the level name)
+           observation: hex bytes of `PatternEncoder::encode` into the writer, or PANIC / ERR
+  console  <NO_COLOR> <CLICOLOR> <CLICOLOR_FORCE> <tty stdout?> <tty stderr?> <stdout|stderr> <tty_only>
+           env values `-` (unset) | 0 | 1
+           observation: `rc=<exit code> out=<hex> err=<hex>` of a child process that builds a
+           ConsoleAppender with the pattern `{h({l} {m})}{n}` and appends one record per level
+-/
 namespace Driver.C18
-open Driver
+open Log4rs Log4rs.Proto Log4rs.Console Log4rs.Console.Spec Driver
 
-def handle : Handler := fun _ _ => badCase "unimplemented"
+def decColor (s : String) : Option (Option Nat) :=
+  if s = "-" then some none else
+  match s.toNat? with
+  | some n => if n < 8 then some (some n) else none
+  | none => none
+
+def decEnvVal (s : String) : Option EnvVal :=
+  if s = "-" then some .unset else if s = "0" then some .zero else if s = "1" then some .one else none
+
+def decTarget (s : String) : Option Target :=
+  if s = "stdout" then some .stdout else if s = "stderr" then some .stderr else none
+
+def asciiBytes (s : String) : Bytes := s.toList.map Char.toNat
+
+def levelBytes : Nat → Bytes
+  | 1 => asciiBytes "ERROR" | 2 => asciiBytes "WARN" | 3 => asciiBytes "INFO"
+  | 4 => asciiBytes "DEBUG" | 5 => asciiBytes "TRACE" | _ => []
+
+/-- token list → chunk list; returns the unconsumed tokens (an `E` is left for the caller) -/
+def parseChunks (level : Nat) : Nat → List String → Option (Chunks × List String)
+  | 0, _ => none
+  | _, [] => some (.nil, [])
+  | fuel + 1, tok :: rest =>
+    if tok = "E" then some (.nil, tok :: rest)
+    else if tok = "H" then
+      match parseChunks level fuel rest with
+      | some (inner, "E" :: rest') =>
+        match parseChunks level fuel rest' with
+        | some (r, rest'') => some (.highlight inner r, rest'')
+        | none => none
+      | _ => none
+    else if tok = "L" then
+      match parseChunks level fuel rest with
+      | some (r, rest') => some (.text (levelBytes level) r, rest')
+      | none => none
+    else if tok.startsWith "T" then
+      match decBytes (tok.drop 1).toString, parseChunks level fuel rest with
+      | some bs, some (r, rest') => some (.text bs r, rest')
+      | _, _ => none
+    else none
+
+def decChunks (level : Nat) (s : String) : Option Chunks :=
+  let toks := decList ',' s
+  match parseChunks level (2 * toks.length + 2) toks with
+  | some (cs, []) => some cs
+  | _ => none
+
+def depth : Chunks → Nat
+  | .nil => 0
+  | .text _ rest => depth rest
+  | .highlight inner rest => max (depth inner + 1) (depth rest)
+
+def renderOutcome : Outcome Unit Bytes → String
+  | .ok bs => encBytes bs
+  | .err _ => "ERR"
+  | .panic _ => "PANIC"
+
+def decObsBytes (s : String) : Option (Option Bytes) :=
+  if s = "PANIC" then some none else (decBytes s).map some
+
+/-- the pattern of the child process, `{h({l} {m})}{n}` with the message `msg` -/
+def childPattern (level : Nat) : Chunks :=
+  .highlight (.text (levelBytes level ++ asciiBytes " msg") .nil) (.text [10] .nil)
+
+def childLevels : List Nat := [1, 2, 3, 4, 5]
+
+def stripPrefix? (p s : String) : Option String :=
+  if s.startsWith p then some (s.drop p.length).toString else none
+
+def decConsoleObs (s : String) : Option (Nat × Bytes × Bytes) :=
+  match splitOnChar ' ' s with
+  | [a, b, c] =>
+    match stripPrefix? "rc=" a, stripPrefix? "out=" b, stripPrefix? "err=" c with
+    | some rc, some o, some e =>
+      match rc.toNat?, decBytes o, decBytes e with
+      | some rc, some o, some e => some (rc, o, e)
+      | _, _, _ => none
+    | _, _, _ => none
+  | _ => none
+
+def handleStyle (t b i implObs : String) : Answer :=
+  match decColor t, decColor b, decOpt decBool i, decObsBytes implObs with
+  | some t, some b, some i, some obs =>
+    let s : Style := { text := t, background := b, intense := i }
+    let n := (if t.isSome then 1 else 0) + (if b.isSome then 1 else 0) + (if i.isSome then 1 else 0)
+    { model := renderOutcome (setStyle s)
+      spec := (styleVerdict s obs).render
+      tags := ["style", "attrs-" ++ toString n] ++ (if overflowClass s then ["f1-overflow-class"] else []) }
+  | _, _, _, _ => badCase "style"
+
+def handleHl (w lvl toks implObs : String) : Answer :=
+  let kind? : Option WriterKind := if w = "ansi" then some .tty else if w = "simple" then some .raw else none
+  match kind?, decNat lvl with
+  | some kind, some level =>
+    if level < 1 ∨ 5 < level then badCase "level" else
+    match decChunks level toks with
+    | none => badCase "tokens"
+    | some cs =>
+      let spec :=
+        if implObs = "PANIC" then Verdict.fail "the encoder panicked" "C18/hl-panic"
+        else if implObs = "ERR" then Verdict.fail "the encoder failed" "C18/hl-error"
+        else match decBytes implObs with
+          | none => Verdict.fail "unreadable observation" "C18/hl-observation"
+          | some bs => streamVerdict kind.isTty [level] (fun _ => cs) bs "C18/hl-"
+      let d := depth cs
+      { model := renderOutcome (encodeChunks kind level cs)
+        spec := spec.render
+        tags := ["hl", w, "level-" ++ toString level, "depth-" ++ toString (min d 4)]
+          ++ (if d = 0 then ["trivial"] else [])
+          ++ (if d ≥ 2 then ["nested"] else []) }
+  | _, _ => badCase "hl"
+
+def handleConsole (nc cc cf to te tg tonly implObs : String) : Answer :=
+  match decEnvVal nc, decEnvVal cc, decEnvVal cf, decBool to, decBool te, decTarget tg, decBool tonly with
+  | some nc, some cc, some cf, some to, some te, some tg, some tonly =>
+    let s : Setup := { env := { noColor := nc, clicolor := cc, clicolorForce := cf },
+                       ttyOut := to, ttyErr := te, target := tg, ttyOnly := tonly }
+    let model := match appendAll s childPattern childLevels with
+      | .ok st => "rc=0 out=" ++ encBytes st.out ++ " err=" ++ encBytes st.err
+      | _ => "rc=3 out=_ err=_"
+    let spec := match decConsoleObs implObs with
+      | none => Verdict.fail "unreadable observation" "C18/console-observation"
+      | some (rc, o, e) => consoleVerdict s childLevels childPattern rc o e
+    let tty := s.targetIsatty
+    { model
+      spec := spec.render
+      tags := ["console", "mode-" ++ (colorMode s.env).name,
+               if tty then "target-tty" else "target-pipe",
+               if tg = .stdout then "stdout" else "stderr",
+               if tonly then "tty-only" else "unrestricted",
+               if shouldWrite tty tonly then "must-write" else "must-be-silent",
+               if colourEnabled s.env tty then "colour" else "no-colour"]
+        ++ (if f2Region s then ["f2-tty-only-colour-forced"] else []) }
+  | _, _, _, _, _, _, _ => badCase "console"
+
+def handle : Handler := fun cas obs =>
+  match cas, obs with
+  | ["style", t, b, i], [o] => handleStyle t b i o
+  | ["hl", w, lvl, toks], [o] => handleHl w lvl toks o
+  | ["console", nc, cc, cf, to, te, tg, tonly], [o] => handleConsole nc cc cf to te tg tonly o
+  | _, _ => badCase "arity"
 
 end Driver.C18
